@@ -178,7 +178,7 @@ def run_session(scenario, schedule, clients=None, fault=None, kernel_hook=None, 
     fd, out_path = tempfile.mkstemp(suffix='.json', dir=workdir)
     os.close(fd)
     net = O.Network(split=scenario.get('split'))
-    kernel = Kernel(make_chooser(schedule), max_steps=max_steps)
+    kernel = Kernel(schedule if callable(schedule) else make_chooser(schedule), max_steps=max_steps)
     kernel.keep_log = keep_log
     if kernel_hook is not None:
         kernel_hook(kernel)
